@@ -353,13 +353,16 @@ def rule_C02(c):
         c.check("E2_copy(elemsG2, BLS12_381_minus_g2)" in ev, "C02.R1", fn + "/minus-g2", c.p.pos(g.f), "signature is paired with -g2", "elemsG2[0] is not set to -g2")
         # VALID only from Fp12_is_one over the full arrays
         sites, _ = accept_sites(c, g)
+        mp = g.calls("Fp12_multi_pairing")
+        nb = [p["name"] for p in c.p.params(fn)][1]
+        # the product object: whatever local the (possibly extracted) pairing step uses
+        m_ = re.match(r"^Fp12_multi_pairing\(&(\w+), elemsG1, elemsG2, \(%s \+ 1\)\)$" % re.escape(nb), g.r(mp[0][1])) if len(mp) == 1 else None
+        prod = m_.group(1) if m_ else "e"
         for n, what in sites:
             if what.endswith("= VALID"):
                 facts = g.resolved_facts(n)
-                c.check("Fp12_is_one(&e) != 0" in facts, "C02.R1", fn + "/accept-pairing", c.pos(g, n), "VALID only when the pairing product is one", "VALID assigned without the pairing product being one", facts)
-        mp = g.calls("Fp12_multi_pairing")
-        nb = [p["name"] for p in c.p.params(fn)][1]
-        c.check(len(mp) == 1 and g.r(mp[0][1]) == "Fp12_multi_pairing(&e, elemsG1, elemsG2, (%s + 1))" % nb, "C02.R1", fn + "/pairing-call", c.p.pos(g.f),
+                c.check("Fp12_is_one(&%s) != 0" % prod in facts, "C02.R1", fn + "/accept-pairing", c.pos(g, n), "VALID only when the pairing product is one", "VALID assigned without the pairing product being one", facts)
+        c.check(bool(m_), "C02.R1", fn + "/pairing-call", c.p.pos(g.f),
                 "pairing over all groups plus the signature pair", "multi-pairing does not cover all %s+1 pairs: %s" % (nb, g.r(mp[0][1]) if mp else "none"))
         # reviewed exception: map_to_G1 result ignored here (checked in bls_verify)
         for n, call in g.calls("map_to_G1"):
@@ -1782,6 +1785,9 @@ def rule_paired_indexing(c, rule, fn, a_param_idx, b_param_idx):
 
 
 def rule_C06(c):
+    # R10: the Horner evaluations behind private and public shares have one shape
+    c.floor("C06.R10", 8)
+    rule_horner(c, "C06.R10")
     # R7: the multi-scalar multiplication behind the interpolation pairs point k with coefficient k
     c.floor("C06.R7", 1)
     rule_paired_indexing(c, "C06.R7", "E1_multi_scalar", 1, 2)
@@ -1955,6 +1961,64 @@ def rule_verdict_codes(c, rule, only=None):
                 "verdict function %s can return %s: the Go caller treats every code other than VALID/INVALID as an unexpected error, so a rejected input is reported as an error instead of an invalid signature" % (fn, ", ".join(bad)))
     return n
 
+
+# ------------------------------------------------------------------ Horner evaluation (C06.R10 / C07.R14)
+
+def rule_horner(c, rule):
+    """The two polynomial evaluations of the glue — private shares in Fr, public shares in E2 — are Horner loops of the
+    same shape: the accumulator starts at the neutral element, the counter runs from `degree` down to 0 inclusive, and every
+    iteration multiplies the accumulator by the evaluation point and then adds coefficient [counter] (nothing else writes
+    the accumulator).  The Fr variant multiplies by the Montgomery form of the point and derives the public share as
+    generator * image.  A share computed by one and checked against the other (g2^x == y) only agrees when both walk the
+    same coefficients in the same order."""
+    specs = (("Fr_polynomial_image", 0, 2, 3, 4, "Fr_set_zero", "Fr_mul_montg", "Fr_add"),
+             ("E2_polynomial_image", 0, 1, 2, 3, "E2_set_infty", "E2_mult_small_expo", "E2_add"))
+    shapes = {}
+    for fn, iacc, icoef, ideg, ix, zero, mul, add in specs:
+        g = c.cfg(rule, fn)
+        if not g:
+            continue
+        ps = [p_["name"] for p_ in c.p.params(fn)]
+        acc, coef, deg, x = ps[iacc], ps[icoef], ps[ideg], ps[ix]
+        heads = [n for n in g.nodes if n.kind == "loophead"]
+        if len(heads) != 1:
+            c.und(rule, fn + "/loop", c.p.pos(g.f), "expected exactly one loop, found %d" % len(heads))
+            continue
+        h = heads[0]
+        br = [s_ for s_ in h.succ if s_ is not None and s_.kind == "branch"]
+        m = re.match(r"^\(?(\w+) >= 0\)?$", g.r(br[0].expr)) if br else None
+        cnt = m.group(1) if m else None
+        init = [n for n in g.nodes if n.kind == "decl" and n.tag == cnt and n.expr is not None] if cnt else []
+        inc = [n for n in g.nodes if n.kind == "stmt" and n.tag == "inc" and h in n.succ]
+        ok_range = bool(cnt) and len(init) == 1 and g.r(init[0].expr) == deg and len(inc) == 1 and g.r(inc[0].expr) in ("(%s--)" % cnt, "(--%s)" % cnt, "%s--" % cnt)
+        c.check(ok_range, rule, fn + "/range", c.p.pos(g.f), "coefficients degree..0 are all consumed, highest first",
+                "the Horner loop of %s does not run its counter from `%s` down to 0 inclusive (condition `%s`): a coefficient is skipped or the order changes" % (fn, deg, g.r(br[0].expr) if br else "?"))
+        body = [n for n in g.nodes if n.kind == "stmt" and n.tag != "inc" and g.dominates(h, n) and h.id in g.reach_from(n)]
+        ev = path_events(g, body)
+        want_mul = re.compile(r"^%s\(%s, %s, (.+)\)$" % (mul, re.escape(acc), re.escape(acc)))
+        want_add = "%s(%s, %s, &%s[%s])" % (add, acc, acc, coef, cnt)
+        mm = want_mul.match(ev[0]) if ev else None
+        ok_body = len(ev) == 2 and bool(mm) and ev[1] == want_add
+        c.check(ok_body, rule, fn + "/step", c.p.pos(g.f), "each iteration: accumulator = accumulator * point, then + coefficient[counter]",
+                "the loop body of %s is not `acc = acc*point; acc += %s[%s]`: %s" % (fn, coef, cnt, "; ".join(ev)))
+        pre = path_events(g, [n for n in g.nodes if n.kind in ("stmt", "decl") and n not in body and n.tag != "inc" and h.id in g.reach_from(n) and not g.dominates(h, n)])
+        c.check("%s(%s)" % (zero, acc) in pre, rule, fn + "/start", c.p.pos(g.f), "accumulator starts at the neutral element", "the accumulator `%s` is not reset with %s before the loop" % (acc, zero))
+        if mm:
+            mult = mm.group(1)
+            if fn.startswith("Fr_"):
+                t = mult.lstrip("&")
+                okm = ("Fr_set_limb(&%s, %s)" % (t, x) in pre or "Fr_set_limb(&%s, (limb_t)%s)" % (t, x) in pre) and "Fr_to_montg(&%s, &%s)" % (t, t) in pre
+                c.check(okm, rule, fn + "/point", c.p.pos(g.f), "multiplier is the Montgomery form of the evaluation point", "the multiplier `%s` of the Horner step is not the evaluation point `%s` brought to Montgomery form" % (mult, x))
+            else:
+                c.check(mult == x, rule, fn + "/point", c.p.pos(g.f), "multiplier is the evaluation point", "the multiplier `%s` of the Horner step is not the evaluation point `%s`" % (mult, x))
+        shapes[fn] = (ok_range, ok_body)
+        if fn.startswith("Fr_"):
+            y = ps[1]
+            post = path_events(g, [n for n in g.nodes if n.kind == "stmt" and not g.dominates(h, n) or (n.kind == "stmt" and n not in body and n.tag != "inc" and g.dominates(h, n))])
+            c.check("G2_mult_gen(%s, %s)" % (y, acc) in post, rule, fn + "/public-share", c.p.pos(g.f), "public share = generator * image", "the public share written to `%s` is not G2_mult_gen of the image just computed" % y)
+    if len(shapes) == 2:
+        c.check(all(all(v) for v in shapes.values()), rule, "siblings/horner-shape", "dkg_core.c", "private and public share evaluations walk the coefficients alike", "the Fr and E2 polynomial evaluations no longer have the same Horner shape: shares and the public data derived from the verification vector disagree")
+
 # ------------------------------------------------------------------ C07.R5 (vector intake in C)
 
 def rule_C08(c):
@@ -1972,6 +2036,9 @@ def rule_C08(c):
 
 
 def rule_C07(c):
+    # R14: = C06.R10
+    c.floor("C07.R14", 8)
+    rule_horner(c, "C07.R14")
     # R10: points of the verification vector / public shares are used as affine points only after a conversion (= C04.R5)
     c.floor("C07.R10", 2)
     rule_affine_casts(c, "C07.R10")
